@@ -1193,10 +1193,102 @@ func (e *e4Engine) assert(x *ssa.TypeAssert, ord map[string]int) {
 	}
 	// D7b: accessor table: operand is GetOne(K)/Get(K)[i] on an option list filled by ParseOption and table[K] is the asserted type
 	if why, ok := e.assertByParserTable(x); ok {
+		// a lookup of ONE option yields nil when the option is absent, and asserting a nil interface panics: the table
+		// settles the dynamic type only; the value must also be non-nil on every path to the assertion
+		if cl, isCall := x.X.(*ssa.Call); isCall && !nilFreeOnAllPaths(x.Parent(), cl, x.Block()) {
+			e.open(x, key, "single-value type assertion on the result of a one-option lookup that can be nil on a path to this point (the option may be absent): asserting a nil interface panics")
+			return
+		}
 		e.close(x, key, "D7 "+why, "", false)
 		return
 	}
 	e.open(x, key, "single-value type assertion on a value whose dynamic type is not established on this path")
+}
+
+// nilFreeOnAllPaths: no path from f's entry to block `at` is consistent with v == nil. The nil tests of one-option
+// lookups in f are the atoms; for every assignment of them with v == nil, the CFG is walked taking the assigned edge at a
+// test of an atom and both edges elsewhere. (`if a == nil && b == nil { return }; if b != nil {…} else { a.(*T) }` is
+// nil-free: with a == nil the else branch needs b == nil, which the first test excludes.)
+func nilFreeOnAllPaths(f *ssa.Function, v ssa.Value, at *ssa.BasicBlock) bool {
+	var atoms []ssa.Value
+	idx := map[ssa.Value]int{}
+	addAtom := func(u ssa.Value) {
+		if _, ok := idx[u]; !ok {
+			idx[u] = len(atoms)
+			atoms = append(atoms, u)
+		}
+	}
+	addAtom(v)
+	// nilSubject: cond is `u == nil` / `u != nil` → (u, true when the condition being true means u == nil)
+	nilSubject := func(cond ssa.Value) (ssa.Value, bool, bool) {
+		inner, same := unwrapBool(cond)
+		bo, ok := inner.(*ssa.BinOp)
+		if !ok || (bo.Op != token.EQL && bo.Op != token.NEQ) {
+			return nil, false, false
+		}
+		var u ssa.Value
+		if isNilConst(bo.Y) {
+			u = bo.X
+		} else if isNilConst(bo.X) {
+			u = bo.Y
+		} else {
+			return nil, false, false
+		}
+		isNilWhenTrue := bo.Op == token.EQL
+		if !same {
+			isNilWhenTrue = !isNilWhenTrue
+		}
+		return u, isNilWhenTrue, true
+	}
+	for _, b := range f.Blocks {
+		if iff := ifOf(b); iff != nil {
+			if u, _, ok := nilSubject(iff.Cond); ok {
+				if _, isCall := u.(*ssa.Call); isCall {
+					addAtom(u)
+				}
+			}
+		}
+	}
+	if len(atoms) > 8 {
+		return false
+	}
+	for mask := 0; mask < 1<<len(atoms); mask++ {
+		if mask&1 == 0 {
+			continue // v (atom 0) must be nil in the assignments of interest
+		}
+		seen := map[*ssa.BasicBlock]bool{}
+		var walk func(b *ssa.BasicBlock) bool
+		walk = func(b *ssa.BasicBlock) bool {
+			if b == at {
+				return true
+			}
+			if seen[b] {
+				return false
+			}
+			seen[b] = true
+			if iff := ifOf(b); iff != nil && len(b.Succs) == 2 {
+				if u, nilWhenTrue, ok := nilSubject(iff.Cond); ok {
+					if i, isAtom := idx[u]; isAtom {
+						isNil := mask&(1<<i) != 0
+						if isNil == nilWhenTrue {
+							return walk(b.Succs[0])
+						}
+						return walk(b.Succs[1])
+					}
+				}
+			}
+			for _, s := range b.Succs {
+				if walk(s) {
+					return true
+				}
+			}
+			return false
+		}
+		if walk(f.Blocks[0]) {
+			return false
+		}
+	}
+	return true
 }
 
 // isRelayTableOK: (*Message).IsRelay returns false and (*RelayMessage).IsRelay returns true, and they are the
